@@ -53,11 +53,11 @@ MANIFEST = {
             "proxies, so any truthiness test / comparison / formatting that depends on the value forks and the solver "
             "produces the distinguishing value (0, '', (), ...), which is replayed concretely.",
     "note": "NOT claimed: thread interleavings, near-simultaneous failures, timing; exceptions reserved for cancellation "
-            "(CancelledError, trio.Cancelled); SIGINT delivery. 'does not end' = not within 20 s (correct runs take < 0.5 s)",
+            "(CancelledError, trio.Cancelled); SIGINT delivery. 'does not end' = not within 12 s (correct runs take < 0.5 s)",
     "design_ref": "DESIGN.md §4 C01",
 }
 STUBS = []
-ASSUMPTIONS = ["one OS schedule per scenario", "a run that has not ended after 20 s never ends",
+ASSUMPTIONS = ["one OS schedule per scenario", "a run that has not ended after 12 s never ends",
                "StopIteration is replaced by RuntimeError by the language itself in coroutines (PEP 479): only 'ends by raising "
                "RuntimeError whose cause chain holds it' is demanded"]
 OUTSIDE = ["all interleavings and timing", "several payloads failing at nearly the same time", "cancellation exceptions",
